@@ -510,6 +510,13 @@ func c15Narrowing(c *Ctx) {
 						}
 					}
 				}
+				// floating point: only strconv rounds a decimal correctly to the narrow type and knows its range (the
+				// shortest text of MaxFloat32 is, as a real number, above MaxFloat32: a float64 range test rejects it, and
+				// narrowing an already rounded float64 rounds twice)
+				if rb.Kind() == types.Float32 || rb.Kind() == types.Complex64 {
+					c.bad("narrowing-guard", name, inst.Pos(), "a parsed %s is narrowed to %s after the fact instead of being parsed at the result's own bit size: values just above a float32 midpoint are rounded twice, and the canonical text of ±MaxFloat32 (3.4028235e+38) is rejected by the float64 range test", ob.Name(), rb.Name())
+					continue
+				}
 				// (b) dominating Overflow* test
 				okOv, why := overflowGuard(inst, x, rb)
 				c.check(okOv, "narrowing-guard", name, inst.Pos(), "guarded: "+why, "narrowing conversion of a parsed value without a strconv bit-size bound or a dominating reflect Overflow test of the matching type: "+why)
